@@ -119,6 +119,69 @@ pub fn handle(op: &str, req: &Value) -> Option<Value> {
             json!({"before": before, "after": snapshot(&node), "prev_for_follower_before": p0, "prev_for_follower_after": p1,
                    "replication_before": rs0, "replication_after": rs1})
         },
+        "raft_wal_mirror" => {
+            // follower with a WAL whose in-memory log was compacted (log_base_index = base), then a conflicting AppendEntries,
+            // then a restart from the WAL: the recovered log must equal what the node held in memory
+            use tensor_chain::raft_wal::{RaftRecoveryState, RaftWal};
+            let base = req["base"].as_u64().unwrap_or(1).max(1);
+            let pre_terms: Vec<u64> = req["pre_terms"].as_array().into_iter().flatten().map(|x| x.as_u64().unwrap_or(1)).collect();
+            let p_off = req["prev_offset"].as_u64().unwrap_or(0);
+            let entry_terms: Vec<u64> = req["entry_terms"].as_array().into_iter().flatten().map(|x| x.as_u64().unwrap_or(1)).collect();
+            let ae_term = req["ae_term"].as_u64().unwrap_or(1);
+            let dir = std::env::var("VERIF_BUILD").unwrap_or_else(|_| "/verif/.build".into());
+            let dir = std::path::PathBuf::from(dir).join("replay-tmp").join(format!("m{}-{}", std::process::id(),
+                std::time::SystemTime::now().duration_since(std::time::UNIX_EPOCH).map(|d| d.as_nanos()).unwrap_or(0)));
+            let _ = std::fs::create_dir_all(&dir);
+            let wal_path = dir.join("n1.wal");
+            let mk = || {
+                let t: Arc<MemoryTransport> = Arc::new(MemoryTransport::new("n1".to_string()));
+                let mut cfg = RaftConfig::default();
+                cfg.enable_fast_path = false;
+                cfg.snapshot_trailing_logs = 1;
+                cfg.auto_heartbeat = false;
+                RaftNode::with_wal("n1".to_string(), vec!["n2".into(), "n3".into()], t, cfg, &wal_path)
+            };
+            let mut detail = json!({});
+            let mem_log;
+            {
+                let node = match mk() { Ok(n) => n, Err(e) => return Some(json!({"error": e.to_string()})) };
+                // first leader (term t0) replicates base+1 compacted-to-be entries followed by the in-memory ones
+                let first_term = pre_terms.first().copied().unwrap_or(1).max(1);
+                let lead_term = pre_terms.last().copied().unwrap_or(first_term).max(first_term);
+                let mut all: Vec<LogEntry> = (1..=base).map(|i| LogEntry::new(first_term.min(lead_term), i, Block::default())).collect();
+                for (i, t) in pre_terms.iter().enumerate() {
+                    all.push(LogEntry::new((*t).max(1), base + 1 + i as u64, Block::default()));
+                }
+                let commit = base + u64::from(!pre_terms.is_empty());
+                let ae0 = AppendEntries { term: lead_term, leader_id: "n2".into(), prev_log_index: 0, prev_log_term: 0, entries: all, leader_commit: commit, block_embedding: None };
+                let _ = node.handle_message(&"n2".to_string(), &Message::AppendEntries(ae0));
+                // compaction: snapshot at `commit`, keep 1 trailing entry => log_base_index = commit - 1
+                let fin = node.finalize_to(commit);
+                let snap = node.create_snapshot();
+                if let (Ok(()), Ok((meta, _))) = (fin, snap) {
+                    detail["snapshot_index"] = json!(meta.last_included_index);
+                    let _ = node.truncate_log(&meta);
+                }
+                detail["log_after_compaction"] = json!(node.verif_log_and_vote().0);
+                let first_mem = node.verif_log_and_vote().0.first().map(|e| e.1).unwrap_or(base + 1);
+                let real_base = first_mem - 1;
+                let prev = real_base + p_off;
+                let prev_term = node.verif_log_and_vote().0.iter().find(|e| e.1 == prev).map(|e| e.0).unwrap_or(first_term);
+                let ents: Vec<LogEntry> = entry_terms.iter().enumerate().map(|(j, t)| LogEntry::new(*t, prev + 1 + j as u64, Block::default())).collect();
+                let ae1 = AppendEntries { term: ae_term.max(lead_term), leader_id: "n3".into(), prev_log_index: prev, prev_log_term: prev_term, entries: ents, leader_commit: 0, block_embedding: None };
+                let r = node.handle_message(&"n3".to_string(), &Message::AppendEntries(ae1));
+                detail["response"] = json!(format!("{r:?}").chars().take(160).collect::<String>());
+                mem_log = node.verif_log_and_vote().0;
+            }
+            let rec: Vec<(u64, u64)> = RaftWal::open(&wal_path).ok().and_then(|w| RaftRecoveryState::from_wal(&w).ok()).map(|s| {
+                s.recovered_log.iter().filter_map(|b| bitcode_entry(b)).collect()
+            }).unwrap_or_default();
+            let _ = std::fs::remove_dir_all(&dir);
+            // compare on the indices the node held in memory before the crash
+            let lo = mem_log.first().map(|e| e.1).unwrap_or(0);
+            let rec_tail: Vec<(u64, u64)> = rec.iter().copied().filter(|e| e.1 >= lo).collect();
+            json!({"memory_log": mem_log, "recovered_log": rec, "differs": rec_tail != mem_log, "detail": detail})
+        },
         "raft_leader_commit" => {
             // leader = with_state + become_leader; then current-term success responses set match_index as in the witness
             let mut r2 = req.clone();
@@ -150,4 +213,9 @@ pub fn handle(op: &str, req: &Value) -> Option<Value> {
         },
         _ => return None,
     })
+}
+
+fn bitcode_entry(b: &[u8]) -> Option<(u64, u64)> {
+    let e: LogEntry = bitcode::deserialize(b).ok()?;
+    Some((e.term, e.index))
 }
